@@ -204,18 +204,23 @@ pub fn run(t: &[&str]) -> String {
     // packet cut to its first L bytes (C09: successive executions with different packets)
     let again: Option<usize> = kv.get("again").and_then(|s| s.parse().ok());
     let fixoff: (usize, usize) = kv.get("fixoff").and_then(|s| s.split_once(':')).map(|(a, b)| (a.parse().unwrap_or(0), b.parse().unwrap_or(8))).unwrap_or((0, 8));
-    let extrabase: Vec<u64> = c.extra.iter().map(|e| e.as_ptr() as u64).collect();
+    let mut extrabase: Vec<u64> = c.extra.iter().map(|e| e.as_ptr() as u64).collect();
     // one pristine copy of the buffers per run (interpreter, then each engine)
     let mem0 = c.mem.clone(); let mbuff0 = c.mbuff.clone();
     let mut mem = c.mem.clone(); let mut mbuff = c.mbuff.clone();
+    // `contig=1` (interpreter-only cases that only load): the packet and the first extra buffer live in ONE allocation, 16 bytes apart, so
+    // that a registered range lies at a known distance beyond the packet's end (reachable by LD_ABS / LD_IND, which address from the packet)
+    let contig = kv.get("contig").is_some() && !c.extra.is_empty() && engines.is_empty();
+    if contig { mem.extend(std::iter::repeat(0xEEu8).take(16)); mem.extend_from_slice(&c.extra[0]); }
     let membase = mem.as_ptr() as u64; let mbuffbase = mbuff.as_ptr() as u64;
+    if contig { extrabase[0] = membase + c.mem.len() as u64 + 16; }
     let mut prog = c.prog.clone();
     apply_patches(&mut prog, &c.patch, membase, mbuffbase, &extrabase);
     let probe: Vec<u8> = vec![0xbf, 0x10, 0, 0, 0, 0, 0, 0, 0x95, 0, 0, 0, 0, 0, 0, 0]; // mov r0, r1; exit
     HLOG.with(|l| l.borrow_mut().clear());
     let progref: &[u8] = &prog; let proberef: &[u8] = &probe;
     let cref = &c; let ebref = &extrabase;
-    let mem_ptr = mem.as_mut_ptr(); let mem_len = mem.len();
+    let mem_ptr = mem.as_mut_ptr(); let mem_len = if contig { c.mem.len() } else { mem.len() };
     let mbuff_ptr = mbuff.as_mut_ptr(); let mbuff_len = mbuff.len();
     let kindr = kind.as_str();
     let mut fixedbase: u64 = 0;
@@ -840,6 +845,24 @@ pub fn gen_memprobe(w: &mut impl Write, thorough: bool, seed: u64) {
             }
         }
     }
+    // LD_ABS / LD_IND beyond the packet's end but wholly inside a registered range (packet 16 bytes, gap 16, range = bytes 16..48 of a 64-byte
+    // buffer that follows: packet offsets 48..80): admitted by check_mem like any other access, refused in the gap and across the range's ends
+    {
+        let mem = pattern(16, 11); let extra = pattern(64, 17);
+        for &(_ldx, _st, _stx, labs, lind, _wd) in &widths {
+            for edge in [16i64, 32, 48, 80, 96] { for delta in -9i64..=9 {
+                let target = edge + delta;
+                if !thorough && edge != 48 && edge != 80 && delta.rem_euclid(3) != 0 { continue; }
+                let mut p = vec![]; init_regs(&mut p); p.extend(ins(labs, 0, 0, 0, target as i32)); fold_exit(&mut p);
+                writeln!(w, "exec tag=memprobe prog={} mem={} mbuff=- extra={} arange=0:16:48 contig=1 budget=300", hex(&p), hex(&mem), hex(&extra)).unwrap();
+                for regv in [0i64, 5, -5, 0x1_0000_0000] {
+                    let imm = target - regv; if imm < 0 || imm > 0xffff_ffff { continue; }
+                    let mut p = vec![]; init_regs(&mut p); p.extend(lddw(4, regv as u64)); p.extend(ins(lind, 0, 4, 0, imm as u32 as i32)); fold_exit(&mut p);
+                    writeln!(w, "exec tag=memprobe prog={} mem={} mbuff=- extra={} arange=0:16:48 contig=1 budget=300", hex(&p), hex(&mem), hex(&extra)).unwrap();
+                }
+            } }
+        }
+    }
     // several registered ranges: an access must lie inside ONE of them — two ranges separated by a gap, adjacent ranges, nested
     // ranges; accesses starting in one and ending in the other (over the gap), entirely inside either, and inside the gap
     let extra = pattern(64, 19); let mem = pattern(8, 11);
@@ -1008,14 +1031,16 @@ pub fn gen_engines(w: &mut impl Write, thorough: bool, seed: u64) {
         // 64-bit arguments (upper halves set): a marshalling step of the wrong width must show
         for a in 1..6u8 { let v: u64 = ((0x1111_1111u64 * a as u64 + 0x8000_0000) << 32) | (0x10 * a as u64 + depth as u64);
             let w2 = lddw(a, v); let mut h0 = [0u8; 8]; h0.copy_from_slice(&w2[0..8]); let mut h1 = [0u8; 8]; h1.copy_from_slice(&w2[8..16]); s.push(h0); s.push(h1); }
-        if depth == 0 { s.push(ins(0x85, 0, 0, 0, id as i32)); } else { s.push(ins(0x85, 0, 1, 0, 0)); }
+        // the fields a helper call does not use (dst nibble, offset) are set in two thirds of the programs: the result goes to r0 whatever they hold
+        let (dn, of): (u8, i16) = match (depth + id as usize % 5) % 3 { 0 => (0, 0), 1 => (6 + (id % 4) as u8, 0), _ => (1 + (depth as u8 + id as u8 % 3) % 9, 0x1234) };
+        if depth == 0 { s.push(ins(0x85, dn, 0, of, id as i32)); } else { s.push(ins(0x85, 0, 1, 0, 0)); }
         let main_call = s.len() - 1;
         for q in 6..10u8 { s.push(ins(0x27, 0, 0, 0, 3)); s.push(ins(0x0f, 0, q, 0, 0)); }
         s.push(ins(0xbf, 6, 0, 0, 0)); s.push(ins(0x30, 0, 0, 0, 2)); s.push(ins(0x0f, 0, 6, 0, 0));   // ldabsb after the helper call
         s.push(EXIT);
         let mut starts = vec![];
         for k in 1..=depth { starts.push(s.len());
-            if k == depth { for a in 1..6u8 { s.push(ins(0x07, a, 0, 0, k as i32)); } s.push(ins(0x85, 0, 0, 0, id as i32)); s.push(ins(0xb7, 7, 0, 0, 0x777)); }
+            if k == depth { for a in 1..6u8 { s.push(ins(0x07, a, 0, 0, k as i32)); } s.push(ins(0x85, dn, 0, of, id as i32)); s.push(ins(0xb7, 7, 0, 0, 0x777)); }
             else { s.push(ins(0xb7, 8, 0, 0, 0x888)); s.push(ins(0x85, 0, 1, 0, 0)); }
             s.push(EXIT); }
         // patch local calls
